@@ -131,6 +131,10 @@ class CPXRouter(threading.Thread):
         return self._rxQueues[function.value].get(block=True, timeout=timeout)
 
     def makeTransaction(self, packet):
+        # The queue has to exist before the request goes out, otherwise the
+        # router thread drops an answer that arrives before we wait for it
+        if packet.function.value not in self._rxQueues:
+            self._rxQueues[packet.function.value] = queue.Queue()
         self.sendPacket(packet)
         return self.receivePacket(packet.function)
 
